@@ -182,6 +182,14 @@ def scorer_cuts(c, sc):
         L = 2 * rng.randint(max(2, ms), 5) + 1
         up = rng.randint(0, 1)
         batches.append([(s_, s_ + L // 2 + up, s_ + L) for s_ in sorted(rng.sample(range(0, n - L + 1), min(4, n - L + 1)))])
+    if k == 3 and n >= 20 and ms <= 4:
+        # a fixed reference window of b rows before every split, test windows of b, b+1, b+2, ... rows after it: every left
+        # length equals the first row's right length, the right lengths differ
+        b = rng.randint(max(2, ms), 5)
+        s0 = rng.randint(0, n - 2 * b - 6)
+        batches.append([(s0 + d, s0 + d + b, s0 + d + 2 * b + d) for d in (0, 1, 2, 3)])
+        # and its mirror image: equal right lengths, growing left lengths
+        batches.append([(s0, s0 + b + d, s0 + 2 * b + d) for d in (0, 1, 2, 3)])
     return batches
 
 
